@@ -1,7 +1,7 @@
 #!/bin/bash
 # usage: tools/save_seed.sh <ID> <detected-by-checks (comma list or none)> <needs (text)>   -- after eval_seed.sh confirmed everything
 ID=$1; BY=$2; NEEDS=$3
-WT=/tmp/seed_$ID
+WT=${SEEDPFX:-/tmp/seed_}$ID
 N=${4:-}
 D=/verif/seeded/$ID$N
 mkdir -p $D
